@@ -252,6 +252,14 @@ func (d *drv) objects(t int, nft bool, mode string) {
 					i := d.rnd.Intn(len(pols) - 3)
 					g := append([]types.PolicyID{}, pols[i:i+k]...)
 					d.group(dir, sel, g)
+					if k == 1 {
+						for _, q := range pols {
+							if q.Name == g[0].Name && q.Namespace == g[0].Namespace && q.Kind != g[0].Kind {
+								d.group(dir, sel, []types.PolicyID{q})
+								break
+							}
+						}
+					}
 					if k > 1 {
 						rev := []types.PolicyID{}
 						for j := len(g) - 1; j >= 0; j-- {
@@ -262,6 +270,27 @@ func (d *drv) objects(t int, nft bool, mode string) {
 						other := append([]types.PolicyID{}, g...)
 						other[k-1] = pols[(i+k+1+d.rnd.Intn(5))%len(pols)]
 						d.group(dir, sel, other)
+						// same members except that the last one is another policy with the same namespace and name
+						// (another kind: the staged and the enforced variant of one policy), or the same kind and
+						// name in another namespace
+						for _, q := range pols {
+							last := g[k-1]
+							if q.Name == last.Name && q.Namespace == last.Namespace && q.Kind != last.Kind {
+								twin := append([]types.PolicyID{}, g...)
+								twin[k-1] = q
+								d.group(dir, sel, twin)
+								break
+							}
+						}
+						for _, q := range pols {
+							last := g[k-1]
+							if q.Name == last.Name && q.Kind == last.Kind && q.Namespace != last.Namespace {
+								twin := append([]types.PolicyID{}, g...)
+								twin[k-1] = q
+								d.group(dir, sel, twin)
+								break
+							}
+						}
 						if k > 2 {
 							sw := append([]types.PolicyID{}, g...)
 							sw[1], sw[2] = sw[2], sw[1]
